@@ -50,7 +50,8 @@ def run(ctx, rep):
                         for aid, ak in g.arg_allocas().items():
                             if ak == k and aid not in count_roles.setdefault(g.name, set()):
                                 count_roles[g.name].add(aid); changed = True
-    for fname in ('state_sync_process', 'state_scrub_process', 'state_check_process', 'repair_step', 'is_hash_matching', 'is_parity_matching', 'repair'):
+    from .C05 import hash_matching_fn
+    for fname in ('state_sync_process', 'state_scrub_process', 'state_check_process', 'repair_step', hash_matching_fn(P), 'is_parity_matching', 'repair'):
         f = P.fn(fname)
         rep.analysed(f)
         bufs = set()
